@@ -34,7 +34,7 @@ UnrewindableBodyError raised at attempt >= 2 before anything of that attempt is 
 accepted alternative to an identical re-send for every other body kind.  "Either" regions are
 listed in run()'s assumptions and counted.
 
-Tiers: quick = drivers {pool, manager} x histories <= 2 x 5 methods; thorough = histories <= 3,
+Tiers: quick = drivers {pool, manager} x histories <= 2 x 4 methods; thorough = histories <= 3,
 9 methods, plus PoolManager with cross-host redirects (histories <= 2).
 """
 from __future__ import annotations
@@ -56,7 +56,9 @@ BS = 8  # blocksize given to the pools
 SIZES = [0, 1, BS - 1, BS, BS + 1, 5 * BS + 3]
 OFFSETS = [0, 3]
 STEPS = ["connect-error", "reset", "503", "307", "308", "303", "301"]
-METHODS_QUICK = ["GET", "DELETE", "POST", "PUT", "QUERY"]  # body-less class, body class, unknown method
+# quick: two body-less-class methods, POST (the one method a 301 may rewrite), and an unknown method
+# (takes the same code paths as PUT/PATCH: expects a body, never rewritten)
+METHODS_QUICK = ["GET", "DELETE", "POST", "QUERY"]
 METHODS_THOROUGH = ["GET", "HEAD", "DELETE", "OPTIONS", "TRACE", "POST", "PUT", "PATCH", "QUERY"]
 HDRS = ["none", "cl", "te"]
 # RFC 9110 9.3: methods for which a body-less request carries no framing at all
